@@ -195,7 +195,7 @@ class Origins:
             elif e[0] == "idx":
                 tree = ("index", tree, ("local", e[1]))
             elif e[0] == "cidx":
-                tree = ("index", tree, ("const", e[1]))
+                tree = ("index", tree, ("const", e[1], True) if len(e) > 2 and e[2] else ("const", e[1]))
             else:
                 tree = ("proj", tree, e)
         return tree
